@@ -120,6 +120,11 @@ def check(ctx):
     # chain, never left to a callee's default (sa/rules/forwarding.py)
     # the centroids that are voted on are finite: no mean divides by a
     # cell count that may be zero (rule of C18, sa/props/C18.py)
+    # query and reference columns are paired by gene name: the query
+    # side is gathered by a name-derived index in the order asked for
+    # (rule of C07)
+    from .C07 import check_columns_by_name
+    check_columns_by_name(ctx)
     from .C18 import check_count_denominators
     check_count_denominators(ctx)
     from ..rules.forwarding import check_forwarding
